@@ -55,6 +55,33 @@ Theorems (coq/theories/C08/Property.v, all "Closed under the global context"; no
                                  theorems (exception_clean, invalidate rule, bystanders, interrupt_structural) hold
                                  for either writer (the decomposition is generic in the writer program).
                                  C08_crash_atomic / C08_interrupt_atomic / C08_new_is_image now say sc_par = None.
+  C08_parallel_bytes_are_serial_bytes,  image_from (repeat 0 total) l = image l when every range lies within `total`
+  C08_interrupt_atomic_parallel_serial_image  and total is the end of the last range: the parallel theorems restated with
+                                 the serial `image` (Proofs8: pointwise characterisation of write_at, zero padding is
+                                 invisible pointwise).
+  C08_copy_file_range_complete,  ExternalTensor.tofile's copy_file_range loop is a modelled loop (C08/Cfr.v: kernel answers =
+  C08_copy_file_range_short_source_raises,  arbitrary stream of short copies / 0 / fallback errno / fatal errno, then the
+  C08_copy_file_range_total      chunked userspace loop): returns normally only after exactly n bytes were copied (needs the
+                                 source to hold them); a short source always raises; a long enough source is always
+                                 copied completely.  Tie: `exercise_cfr` runs the real tofile on real files with
+                                 _core.os.copy_file_range scripted (short copies performed for real) and compares
+                                 (outcome, kernel bytes, userspace bytes) with tofile_fast inside Coq; oracle: returned
+                                 normally => every byte copied and the bytes are the source's.
+  C08_plan_is_translated_source  `generate(ck)` translates the statement sequence of external_data._write_external_data
+                                 (ast, fail-closed: every statement must be one of the recognised forms) into
+                                 Gen/C08Gen.v on every run; C08/Skel.v gives the statements their meaning (sequence,
+                                 try/finally = PTry, suppress(FileNotFoundError), the two loops); the theorem says
+                                 that meaning IS plan_single.  A moved/dropped/added step or finally->except breaks
+                                 the translation or the theorem (obligation `translate:C08Gen` / proof broken).
+  C08_sharded_plan_is_translated_source  the same for _check_no_existing_shard_files (os.path.exists on every destination,
+                                 FileExistsError before anything is written) and the sharded branch of
+                                 _write_external_tensors (pre-flight before the per-shard saves): their translated
+                                 statement sequences mean plan_sharded.
+  C08_model_file_failure,        ir.save is the entry point of the model too: run_io = the data save followed by
+  C08_io_same_directory,         ASaveModel (onnx.save of the model file; counted effect: kill point, ENOSPC).  Once
+  C08_io_sharded_same_directory  the data write succeeded the destination holds exactly the complete new bytes whatever
+                                 happens at the model file; in general run_io's directory and tensors are those of
+                                 run, so every theorem transfers.  The case files evaluate run_io / run_sharded_io.
   C08_interrupt_structural       without src_wf: old node or a file moved wholesale after every action between
                                  temp creation and os.replace returned normally.
   C08_exception_clean            exception of ANY kind (Exception or BaseException-only: KeyboardInterrupt /
@@ -257,6 +284,8 @@ def c_ob(e, tok) -> str:
         return f"ORemove {tok(e[1])}"
     if k == "rmdir":
         return f"ORmdir {tok(e[1])}"
+    if k == "model_save":
+        return "OModelSave"
     if k == "fail":
         return f"OFail {cbool(e[1])}"
     # an effect the model has no name for (e.g. a mutant opening the destination "r+b"): make the
@@ -390,8 +419,185 @@ def scenario_terms(scn: dict, root: str, tok: Tok, tag: str):
 def run_term(scn: dict, tag: str, crash, fault) -> str:
     c = f"(mk {copt(crash, cnat)} {copt(fault, cnat)})"
     if scn.get("max_shard") is None:
-        return f"(run {c} fs_{tag} tens_{tag} small_{tag} (hd (Build_scn [] [] [] 0 None 0 [] [] None) scs_{tag}))"
-    return f"(run_sharded {c} fs_{tag} tens_{tag} small_{tag} scs_{tag})"
+        return f"(run_io {c} fs_{tag} tens_{tag} small_{tag} (hd (Build_scn [] [] [] 0 None 0 [] [] None) scs_{tag}))"
+    return f"(run_sharded_io {c} fs_{tag} tens_{tag} small_{tag} scs_{tag})"
+
+
+
+# --------------------------------------------------------------------------- translation of the source (fail-closed)
+
+_PURE_CALLEES = {"os.fspath", "os.path.dirname", "os.path.basename", "os.path.join", "_ExternalDataWriter",
+                 "_create_tensor_write_locks", "logger.warning"}
+
+
+class Untranslatable(Exception):
+    pass
+
+
+def _u(node) -> str:
+    import ast
+    return ast.unparse(node)
+
+
+def _is_pure(st) -> bool:
+    """An assignment / logging statement all of whose calls are known to have no file-system, tensor or writer
+    effect."""
+    import ast
+    if not isinstance(st, (ast.Assign, ast.AnnAssign, ast.Expr)):
+        return False
+    for n in ast.walk(st):
+        if isinstance(n, ast.Call) and _u(n.func) not in _PURE_CALLEES:
+            return False
+        if isinstance(n, (ast.Await, ast.Yield, ast.YieldFrom, ast.NamedExpr)):
+            return False
+    return True
+
+
+def _stm(st, in_loop: bool = False) -> str:
+    """One Python statement of _write_external_data -> a term of C08/Skel.v's `stm` (or Untranslatable)."""
+    import ast
+    text = _u(st)
+    if isinstance(st, ast.Assign) and len(st.targets) == 1:
+        tgt, val = _u(st.targets[0]), _u(st.value)
+        if tgt == "destination_path" and val == ("os.path.realpath(requested_path) if os.path.islink(requested_path) "
+                                                 "else requested_path"):
+            return "SAssignDest"
+        if tgt == "overwritten_tensors" and val == ("[tensor for tensor in tensors if isinstance(tensor, "
+                                                    "_core.ExternalTensor) and _paths_refer_to_same_file(tensor.path, "
+                                                    "destination_path)]"):
+            return "SOverwritten"
+        if tgt == "temporary_dir" and val == ("tempfile.mkdtemp(dir=destination_dir, "
+                                              "prefix=f'.{os.path.basename(destination_path)}.')"):
+            return "SMkdtemp"
+        if tgt == "replaced_path" and val == "os.path.realpath(destination_path)":
+            return "SRealpathDest"
+    if isinstance(st, ast.Expr):
+        if text == "writer.write()":
+            return "SWriterWrite"
+        if text == "os.replace(temporary_path, destination_path)":
+            return "SReplace"
+        if text == "shutil.copymode(destination_path, temporary_path)":
+            return "SCopymode"
+        if text == "os.remove(temporary_path)":
+            return "SRemoveTmp"
+        if text == "os.rmdir(temporary_dir)":
+            return "SRmdirTmp"
+        if in_loop and text == "tensor.release()":
+            return "SRelease"
+        if in_loop and text == "tensor.invalidate()":
+            return "SInvalidate"
+    if isinstance(st, ast.For) and not st.orelse and _u(st.target) == "tensor" and _u(st.iter) == "overwritten_tensors":
+        return "(SForOverwritten %s)" % clist(_stm(x, True) for x in st.body)
+    if isinstance(st, ast.If) and not st.orelse:
+        test = _u(st.test)
+        if test == "os.path.exists(destination_path)":
+            return "(SIfExists %s)" % clist(_stm(x, in_loop) for x in st.body)
+        if in_loop and test == "os.path.realpath(tensor.path) != replaced_path" and len(st.body) == 1 \
+                and isinstance(st.body[0], ast.Continue):
+            return "SIfRealpathDiffersContinue"
+    if isinstance(st, ast.With) and len(st.items) == 1 and st.items[0].optional_vars is None \
+            and _u(st.items[0].context_expr) == "contextlib.suppress(FileNotFoundError)" and len(st.body) == 1:
+        return "(SSuppressFNF %s)" % _stm(st.body[0], in_loop)
+    if isinstance(st, ast.Try) and not st.handlers and not st.orelse and st.finalbody:
+        return "(STry %s %s)" % (clist(_stm(x, in_loop) for x in st.body), clist(_stm(x, in_loop) for x in st.finalbody))
+    if _is_pure(st):
+        return "SPure"
+    raise Untranslatable(f"line {getattr(st, 'lineno', '?')}: {text[:160]}")
+
+
+_SHARD_PURE_CALLEES = {"_create_tensor_write_locks", "_shard_tensors", "len", "_get_shard_filename", "str", "range",
+                       "os.path.join", "_make_shard_callback", "zip", "shard_jobs.append"}
+
+
+def _pure_in(st, allowed: set) -> bool:
+    """Statement (possibly a for loop of such statements) all of whose calls are in `allowed`."""
+    import ast
+    if isinstance(st, ast.For):
+        return not st.orelse and all(_pure_in(x, allowed) for x in st.body) and \
+            all(_u(n.func) in allowed for n in ast.walk(st.iter) if isinstance(n, ast.Call))
+    if isinstance(st, ast.Return):
+        return isinstance(st.value, ast.Name)
+    if not isinstance(st, (ast.Assign, ast.AnnAssign, ast.AugAssign, ast.Expr)):
+        return False
+    return all(_u(n.func) in allowed for n in ast.walk(st) if isinstance(n, ast.Call))
+
+
+def _sstm(st) -> str:
+    """One statement of _write_external_tensors -> `sstm`."""
+    import ast
+    if isinstance(st, ast.If) and not st.orelse and _u(st.test) == "max_shard_size_bytes is None" \
+            and len(st.body) == 1 and isinstance(st.body[0], ast.Return) \
+            and isinstance(st.body[0].value, ast.Call) and _u(st.body[0].value.func) == "convert_tensors_to_external":
+        return "SSSingleBranch"
+    if isinstance(st, ast.Expr) and _u(st) == "_check_no_existing_shard_files(destination_paths)":
+        return "SSPreflight"
+    if isinstance(st, ast.If) and not st.orelse \
+            and _u(st.test) == "max_workers is not None and max_workers > 1 and (len(shard_jobs) > 1)" \
+            and isinstance(st.body[-1], ast.Return) and _u(st.body[-1]) == "return external_tensors" \
+            and not any(isinstance(n, ast.Call) and (_u(n.func).startswith(("os.", "shutil.", "tempfile.", "open"))
+                                                     or _u(n.func) == "_check_no_existing_shard_files")
+                        for n in ast.walk(st)):
+        return "SSParallelShards"
+    if isinstance(st, ast.For) and not st.orelse and _u(st.iter) == "shard_jobs" and len(st.body) == 1 \
+            and isinstance(st.body[0], ast.Expr) and isinstance(st.body[0].value, ast.Call) \
+            and _u(st.body[0].value.func) == "external_tensors.extend" and len(st.body[0].value.args) == 1 \
+            and isinstance(st.body[0].value.args[0], ast.Call) \
+            and _u(st.body[0].value.args[0].func) == "convert_tensors_to_external":
+        return "SSForShardsConvert"
+    if _pure_in(st, _SHARD_PURE_CALLEES):
+        return "SSPure"
+    raise Untranslatable(f"_write_external_tensors line {getattr(st, 'lineno', '?')}: {_u(st)[:160]}")
+
+
+def _pstm(st) -> str:
+    """One statement of _check_no_existing_shard_files -> `pstm`."""
+    import ast
+    if isinstance(st, ast.Assign) and _u(st) == ("existing = [os.fspath(path) for path in destination_paths "
+                                                 "if os.path.exists(path)]"):
+        return "PExistsEach"
+    if isinstance(st, ast.If) and not st.orelse and _u(st.test) == "existing" and st.body \
+            and isinstance(st.body[-1], ast.Raise) and isinstance(st.body[-1].exc, ast.Call) \
+            and _u(st.body[-1].exc.func) == "FileExistsError" \
+            and all(_pure_in(x, {"', '.join", "repr"}) for x in st.body[:-1]):
+        return "PIfExistingRaise"
+    raise Untranslatable(f"_check_no_existing_shard_files line {getattr(st, 'lineno', '?')}: {_u(st)[:160]}")
+
+
+def _body(mod, name: str):
+    import ast
+    fn = next(n for n in mod.body if isinstance(n, ast.FunctionDef) and n.name == name)
+    body = fn.body
+    if body and isinstance(body[0], ast.Expr) and isinstance(getattr(body[0], "value", None), ast.Constant) \
+            and isinstance(body[0].value.value, str):
+        body = body[1:]
+    return body
+
+
+def generate(ck) -> bool:
+    """Gen/C08Gen.v, regenerated from the source tree on every run: the statement sequences of
+    external_data._write_external_data, _check_no_existing_shard_files and (the sharded branch of)
+    _write_external_tensors as terms of C08/Skel.v.  C08/GenEquiv.v proves that their meaning is the model's
+    plan_single / plan_sharded."""
+    import ast
+    try:
+        with open(SRC, encoding="utf-8") as f:
+            mod = ast.parse(f.read())
+        terms = [_stm(st) for st in _body(mod, "_write_external_data")]
+        pterms = [_pstm(st) for st in _body(mod, "_check_no_existing_shard_files")]
+        sterms = [_sstm(st) for st in _body(mod, "_write_external_tensors")]
+    except (Untranslatable, StopIteration, SyntaxError, OSError) as e:
+        ck.gen_failed("C08Gen", e)
+        return False
+    text = ("(* GENERATED by /verif/harness/props/c08.py (generate) from src/onnx_ir/external_data.py on every run - "
+            "do not edit. *)\nFrom Coq Require Import List.\nFrom IRV Require Import Base.Exn C08.Model C08.Skel.\n"
+            "Import ListNotations.\n\n(* translated from external_data.py::_write_external_data (statement sequence) *)\n"
+            "Definition write_external_data_body : list stm :=\n  " + clist(terms).replace("; ", ";\n   ") + ".\n\n"
+            "(* translated from external_data.py::_check_no_existing_shard_files *)\n"
+            "Definition check_no_existing_body : list pstm := " + clist(pterms) + ".\n\n"
+            "(* translated from external_data.py::_write_external_tensors *)\n"
+            "Definition sharded_branch_body : list sstm :=\n  " + clist(sterms) + ".\n")
+    ck.gen("C08Gen", text)
+    return True
 
 
 # --------------------------------------------------------------------------- oracle (the property itself)
@@ -411,6 +617,7 @@ def oracle(scn: dict, root: str, before: dict, after: dict, outcome: str, failed
     callback failure or a kill).  new_bytes: data file -> complete new bytes of the un-interrupted save
     (None when that save itself raises)."""
     bad = []
+    after_commit = after_commit or failed_kind == "model_save"
     sharded = scn.get("max_shard") is not None
     dests = {}
     if not sharded:
@@ -860,6 +1067,129 @@ def exercise_modelsave(ck, scn: dict, root: str, ref_outcome, new_bytes, tens_be
     return fails
 
 
+# --------------------------------------------------------------------------- copy_file_range loop (C08/Cfr.v)
+
+def run_cfr_case(case: dict, root: str) -> dict:
+    """ExternalTensor.tofile on real files with a scripted kernel: os.copy_file_range (the name _core looks up) answers
+    from case["answers"]: ["copy", cap] copies min(cap, requested) bytes for real, ["fallback"] raises EXDEV,
+    ["fatal"] raises EIO; an exhausted script answers 0.  Returns the observation."""
+    import errno
+    import types
+    import onnx_ir as ir
+    from onnx_ir import _core
+    shutil.rmtree(root, ignore_errors=True)
+    os.makedirs(root)
+    off, avail, n, d0 = case["off"], case["avail"], case["n"], case["d0"]
+    data = S._bytes(case["seed"], off + avail)
+    with open(os.path.join(root, "src.bin"), "wb") as f:
+        f.write(data)
+    t = ir.ExternalTensor("src.bin", off, n, ir.DataType.UINT8, shape=ir.Shape([n]), name="t", base_dir=root)
+    answers = [list(a) for a in case["answers"]]
+    stat = {"kernel": 0, "calls": 0}
+    real_os = _core.os
+
+    def cfr(src_fd, dst_fd, count, offset_src=None, offset_dst=None):
+        stat["calls"] += 1
+        if not answers:
+            return 0
+        a = answers.pop(0)
+        if a[0] == "fallback":
+            raise OSError(errno.EXDEV, "cross-device (scripted)")
+        if a[0] == "fatal":
+            raise OSError(errno.EIO, "I/O error (scripted)")
+        k = min(a[1], count)
+        if k == 0:
+            return 0
+        r = real_os.copy_file_range(src_fd, dst_fd, k, offset_src=offset_src, offset_dst=offset_dst)
+        stat["kernel"] += r
+        return r
+
+    class OsProxy:
+        def __getattr__(self, name):
+            return cfr if name == "copy_file_range" else getattr(real_os, name)
+    saved_chunk = _core._EXTERNAL_TENSOR_COPY_CHUNK_SIZE
+    _core.os = OsProxy()
+    _core._EXTERNAL_TENSOR_COPY_CHUNK_SIZE = case["chunk"]
+    outcome = "ok"
+    try:
+        with open(os.path.join(root, "dst.bin"), "wb") as dst:
+            dst.write(b"\xaa" * d0)
+            try:
+                t.tofile(dst)
+            except OSError:
+                outcome = "raise"
+            dst.flush()
+            pos = dst.tell()
+    finally:
+        _core.os = real_os
+        _core._EXTERNAL_TENSOR_COPY_CHUNK_SIZE = saved_chunk
+        t.release()
+    with open(os.path.join(root, "dst.bin"), "rb") as f:
+        out = f.read()
+    user = pos - d0 - stat["kernel"]
+    copied = stat["kernel"] + user
+    return {"outcome": outcome, "kernel": stat["kernel"], "user": user,
+            "content_ok": out[d0:d0 + copied] == data[off:off + copied] and out[:d0] == b"\xaa" * d0}
+
+
+def cfr_oracle(case: dict, obs: dict) -> list[str]:
+    bad = []
+    if not obs["content_ok"]:
+        bad.append("bytes written by tofile differ from the source bytes")
+    if obs["outcome"] == "ok" and obs["kernel"] + obs["user"] != case["n"]:
+        bad.append(f"tofile returned normally after copying {obs['kernel'] + obs['user']} of {case['n']} bytes "
+                   "(a save would succeed with an incomplete data file)")
+    if obs["outcome"] == "ok" and case["avail"] < case["n"]:
+        bad.append("tofile returned normally although the backing file is shorter than offset+length")
+    return bad
+
+
+def gen_cfr_case(rng) -> dict:
+    n = rng.choice([1, 2, 5, 9, 16, 40])
+    avail = rng.choice([n, n, n + 3, n + 20, max(0, n - 1), max(0, n - 4), 0, n // 2])
+    answers = []
+    for _ in range(rng.choice([0, 1, 1, 2, 3, 5])):
+        r = rng.random()
+        answers.append(["copy", rng.choice([0, 1, 2, 3, 7, 100])] if r < 0.8 else (["fallback"] if r < 0.92 else ["fatal"]))
+    return {"off": rng.choice([0, 3, 11]), "avail": avail, "n": n, "d0": rng.choice([0, 4]),
+            "chunk": rng.choice([1, 3, 8, 64]), "answers": answers, "seed": rng.randrange(1 << 20)}
+
+
+def exercise_cfr(ck) -> None:
+    """Correspondence of ExternalTensor.tofile's copy_file_range loop with C08/Cfr.v (tofile_fast), evaluated inside
+    Coq, plus the oracle (returned normally => every byte copied)."""
+    root = os.path.join(ck.scratch, "cfr")
+    cases = [gen_cfr_case(ck.rng) for _ in range(160 if not ck.thorough else 3000)]
+    terms, obs_all = [], []
+    for case in cases:
+        obs = run_cfr_case(case, root)
+        obs_all.append(obs)
+        ck.count()
+        ck.hist("copy_file_range", obs["outcome"] + (":short" if case["avail"] < case["n"] else ""))
+        bad = cfr_oracle(case, obs)
+        if bad:
+            ck.violation({"kind": "oracle", "mode": "cfr", "case": case, "observed": obs, "failures": bad})
+            break
+        ans = clist("(KCopy %s)" % cnat(a[1]) if a[0] == "copy" else ("KErrFallback" if a[0] == "fallback" else "KErrFatal")
+                    for a in case["answers"])
+        o = ("COk" if obs["outcome"] == "ok" else "CRaise") + f" {cnat(obs['kernel'])} {cnat(max(obs['user'], 0))}"
+        terms.append(f"outcome_eqb (tofile_fast {ans} {cnat(case['avail'])} {cnat(case['n'])} {cnat(case['chunk'])}) ({o})")
+        if case["answers"] and 0 < case["avail"]:
+            ck.nontriv(("cfr", case))
+    shutil.rmtree(root, ignore_errors=True)
+    text = ("From Coq Require Import List Bool Arith.\nFrom IRV Require Import Base.Exn C08.Cfr.\nImport ListNotations.\n"
+            "Definition checks : list bool := [\n  " + ";\n  ".join(terms) + "].\n"
+            "Eval vm_compute in (failing (fun b : bool => b) checks).\n")
+    try:
+        mism = ck.coq_failing(text, "cases_cfr") if terms else []
+    except RuntimeError as e:
+        mism = []
+        ck.broken("correspondence:case-file-cfr", str(e))
+    for i in mism[:4]:
+        ck.broken("correspondence:tofile_fast", json.dumps({"case": cases[i], "observed": obs_all[i]}))
+    ck.coverage["cfr_cases"] = len(terms)
+
+
 # --------------------------------------------------------------------------- parallel writer: oracle only
 
 def exercise_parallel(ck, scn: dict, root: str) -> list[dict]:
@@ -925,6 +1255,7 @@ def run(ck) -> None:
                        "single-fault assumption: at most one injected failure per save"]
     ck.coverage["rule"] = ("non-trivial = the interruption hits an effect strictly between mkdtemp and the end of "
                            "the cleanup of a save whose destination already exists")
+    generate(ck)
     ck.prove()
     n_single = 28 if not ck.thorough else 400
     n_shard = 10 if not ck.thorough else 120
@@ -973,6 +1304,7 @@ def run(ck) -> None:
         scn["tensors"] = [t for t in scn["tensors"] if t["kind"] != "small"] or scn["tensors"]
         oracle_failures += exercise_parallel(ck, scn, root)
     shutil.rmtree(root, ignore_errors=True)
+    exercise_cfr(ck)
     replay_known(ck)
     report(ck, oracle_failures)
     if ck.broken_items and not ck.violations:
@@ -1174,6 +1506,15 @@ def search(ck) -> None:
 def replay(rp: dict) -> int:
     import logging
     logging.disable(logging.WARNING)
+    if rp.get("mode") == "cfr":
+        root = os.path.join(common.SCRATCH_ROOT, f"replay-C08-cfr-{os.getpid()}")
+        try:
+            obs = run_cfr_case(rp["case"], root)
+        finally:
+            shutil.rmtree(root, ignore_errors=True)
+        bad = cfr_oracle(rp["case"], obs)
+        print(json.dumps({"case": rp["case"], "observed": obs, "failures": bad}, indent=1))
+        return 1 if bad else 0
     scn = rp.get("scenario")
     if scn is None:
         print("replay names a broken obligation/correspondence, no concrete input:",
